@@ -112,6 +112,42 @@ def run(run, replay=None):
                 fails.append(("confirmation-lost", {"kind": "confirmation-lost", "after": "abandoned-sessions"}, o))
         finally:
             srv.stop()
+    # a backlog of acknowledged registrations (slow updater) must not keep an acknowledged conversion from being confirmed,
+    # and every acknowledged registration is eventually applied
+    srv = S.Server(bindir, dic, None, workers=4, env={"CHOKAN_VERIF_DELAY_UPDATER": "120"})
+    try:
+        if srv.wait_listening():
+            a = srv.conv("しんかこか")
+            ts = S.texts(a) or []
+            acked = 0
+            unanswered = None
+            for i in range(40 if thorough else 24):
+                st, _ = srv.rpc("RegisterWord", {"kind": "CommonNoun", "reading": "ばっくろぐ", "word": "滞貨%d" % i}, timeout=10.0)
+                if st != "ok":
+                    unanswered = "RegisterWord #%d: %s" % (i, st)
+                    break
+                acked += 1
+            st2 = None
+            if unanswered is None and "新過去化" in ts:
+                st2, _ = srv.rpc("UpdateFrequency", {"session_id": a[1]["session_id"], "candidate_id": str(ts.index("新過去化"))}, timeout=10.0)
+                if st2 != "ok":
+                    unanswered = "UpdateFrequency of an affixed candidate: %s" % st2
+            probe = srv.conv("くるまで", timeout=10.0)
+            if unanswered is None and probe[0] != "ok":
+                unanswered = "conversion after the confirmation: %s" % probe[0]
+            o = {"acknowledged_registrations": acked, "updater_delay_ms": 120, "confirmed": "新過去化" if st2 else None}
+            obs.append(dict(o, clients=1, pairs_per_client=1))
+            if unanswered:
+                fails.append(("confirmation-lost", {"kind": "confirmation-lost", "after": "registration-backlog"}, dict(o, unanswered=unanswered)))
+            else:
+                want = acked + (1 if st2 == "ok" else 0)
+                done = S.wait_until(lambda: (lambda d_: d_ is not None and len(set(d_["user_entries"])) >= want)(srv.dump()), 30.0)
+                if done is None:
+                    d_ = srv.dump()
+                    fails.append(("registration-not-applied-once", {"kind": "registration-not-applied-once", "after": "registration-backlog"},
+                                  dict(o, distinct_user_entries=d_ and len(set(d_["user_entries"])), expected=want)))
+    finally:
+        srv.stop()
     for kind, key, w in fails[:6]:
         run.failures.append(cl.Failure("oracle", "server violates C15 (%s): %s" % (kind, json.dumps(w)), witness=w, key=key))
     run.cov.update({"evaluations": sum(o["clients"] * o["pairs_per_client"] for o in obs), "distinct_nontrivial": len(obs),
